@@ -404,15 +404,57 @@ def run(tier, seed, opens):
                 w.session.close()
             except Exception:
                 pass
+        # a plain (non-wallet) signed Transaction: dictionaries, JSON, repr, info must be clean; its pickle / deep copy (Transaction.save() pickles)
+        # carries the signing keys - recorded finding, pinned narrowly: with the private Key objects of Input.keys replaced by their public
+        # versions and Signature.secret / Signature.k cleared, the copy must be clean
+        import copy
+        from bitcoinlib.transactions import Transaction
+        for wt in ('segwit', 'legacy'):
+            ksec = rng.randrange(1, 2 ** 255)
+            sec = Secrets()
+            sec.add(ksec, 'the signing key')
+            inp = {'wallet': 'plain Transaction, %s, signed with one key' % wt, 'private_key': '%064x' % ksec}
+            try:
+                kk = Key(ksec, network='bitcoin')
+                tp = Transaction(network='bitcoin', witness_type=wt)
+                tp.add_input('%064x' % rng.getrandbits(256), 0, keys=[kk.public()] if rng.random() < 0.5 else [kk], value=100000, witness_type=wt)
+                tp.add_output(90000, Key(rng.randrange(1, 2 ** 255), network='bitcoin').address())
+                tp.sign(kk)
+            except Exception as e:
+                notes.append('plain transaction could not be set up: %s' % e)
+                continue
+            check([('Transaction.as_dict()', (lambda: tp.as_dict()), False), ('Transaction.as_json()', (lambda: tp.as_json()), False), ('repr(Transaction)', (lambda: repr(tp)), False),
+                   ('Transaction.info()', (lambda: _printed(tp.info)), False), ('Transaction.raw_hex()', (lambda: tp.raw_hex()), False),
+                   ('Input / Output / Signature dictionaries and repr', (lambda: [[i.as_dict(), repr(i), [repr(sg) for sg in i.signatures]] for i in tp.inputs] + [[o.as_dict(), repr(o)] for o in tp.outputs]), False)],
+                  sec, inp)
+            cases += 1
+            r = sec.scan(pickle.dumps(tp)) or sec.scan(copy.deepcopy(tp), deep=True)
+            if not r:
+                ok += 1
+            else:
+                clean = copy.deepcopy(tp)
+                for i in clean.inputs:
+                    i.keys = [k.public() if getattr(k, 'is_private', False) else k for k in i.keys]
+                    for sg in i.signatures:
+                        sg.secret = None
+                        sg.k = None
+                r2 = sec.scan(pickle.dumps(clean)) or sec.scan(clean, deep=True)
+                fail('pickle / copy of a signed Transaction', inp, 'contains the private key of %s as %s%s' % (r[1], r[2], '' if not r2 else ' (also outside Input.keys / Signature.secret / Signature.k: %s)' % (r2[0],)),
+                     pid=None if r2 else 'F-C16-signed-transaction-pickle')
         # database field encryption (child process: the key is read from the environment at import)
-        for wt, net in ([('segwit', 'bitcoin')] if tier == 'quick' else [('segwit', 'bitcoin'), ('legacy', 'litecoin'), ('p2sh-segwit', 'testnet')]):
+        for wt, net, mode in ([('segwit', 'bitcoin', 'key'), ('legacy', 'bitcoin', 'password')] if tier == 'quick' else
+                              [('segwit', 'bitcoin', 'key'), ('legacy', 'litecoin', 'password'), ('p2sh-segwit', 'testnet', 'key'), ('segwit', 'testnet', 'password')]):
             cases += 1
             sd = bytes(rng.getrandbits(8) for _ in range(32))
-            dbp = os.path.join(tmp, 'enc_%s.sqlite' % wt)
-            env = dict(os.environ, DB_FIELD_ENCRYPTION_KEY=bytes(rng.getrandbits(8) for _ in range(32)).hex())
+            dbp = os.path.join(tmp, 'enc_%s_%s.sqlite' % (wt, mode))
+            env = {k: v for k, v in os.environ.items() if k not in ('DB_FIELD_ENCRYPTION_KEY', 'DB_FIELD_ENCRYPTION_PASSWORD')}
+            if mode == 'key':
+                env['DB_FIELD_ENCRYPTION_KEY'] = bytes(rng.getrandbits(8) for _ in range(32)).hex()
+            else:
+                env['DB_FIELD_ENCRYPTION_PASSWORD'] = 'correct horse %d' % rng.getrandbits(40)
             child = subprocess.run([sys.executable, '-m', 'bounded.c16_views', '--child', dbp, sd.hex(), wt, net], env=env, capture_output=True, text=True,
                                    cwd=os.path.dirname(os.path.dirname(os.path.abspath(__file__))), timeout=300)
-            inp = {'wallet': 'hd wallet, %s, %s, DB_FIELD_ENCRYPTION_KEY set' % (wt, net), 'seed': sd.hex()}
+            inp = {'wallet': 'hd wallet, %s, %s, DB_FIELD_ENCRYPTION_%s set' % (wt, net, mode.upper()), 'seed': sd.hex()}
             try:
                 info = json.loads(child.stdout.strip().splitlines()[-1])
             except Exception:
